@@ -30,7 +30,7 @@ STUBS = [
 FLOAT_MODE = "R-mode / D-mode / SPhase as listed"
 BOUNDS = {"quick": dict(programs=12, ops_per_program="<=9"), "thorough": dict(programs=16, ops_per_program="<=12", prefixes="every proper prefix of >= 2 operations of every program, both codecs")}
 OUTSIDE = ["JSON number text formatting (Python repr round-trips floats)", "InterpolatedWaveform/KaiserWaveform sample values (concrete only)",
-           "torch", "np.round/ceil/floor of a variable (see finding note in DESIGN)"]
+           "torch", "np.round/ceil/floor of a variable with SYMBOLIC values (covered with concrete values by template vars_round)"]
 
 S = lambda n, k="real", **kw: dict(s=n, k=k, **kw)  # noqa: E731
 E = lambda *e: dict(e=list(e))  # noqa: E731
@@ -171,6 +171,11 @@ PARAM_PROGRAMS = {
         ["add", "g", ["pulse", ["interp", 40, E("mul", ["var", "arr"], {"lit": [1.0, 0.5, 0.25]}), [0.0, 0.5, 1.0]],
                       ["interp", 40, E("sub", ["var", "s"], {"lit": [0.0, 1.0, 2.0]}), [0.0, 0.5, 1.0]], 0.0]],
         ["add", "g", ["cdet", ["interp", 40, E("mul", {"lit": [2.0, 1.0, 0.5]}, ["var", "arr"]), [0.0, 0.25, 1.0]], E("div", ["var", "s"], 2.0), 0.0]]]),
+    # rounding functions of variables (np.round, round(x, 2), np.floor, np.ceil): concrete variable values
+    "vars_round": dict(device="mock", vars=[("a", "float", 1), ("b", "float", 1)], concrete_vars=True, prog=[
+        ["declare", "g", "rydberg_global"],
+        ["add", "g", ["cp", 16, E("round", ["mul", ["var", "a"], 2.6]), E("round2", ["div", ["var", "b"], 3.0]), 0.0]],
+        ["add", "g", ["cp", 16, E("ceil", ["mul", ["var", "a"], 1.3]), E("floor", ["mul", ["var", "b"], 1.7]), 0.5]]]),
     # mappable register: "all qubits" of a target-less phase_shift is only known at build time (built with 2 of 3 qubits)
     "mappable_shift_all": dict(device="mock", reg="mappable3", direct_reg="mapped3", qubits={"q0": 1, "q1": 4},
                                qubits_alt={"q0": 2, "q1": 5}, direct_reg_alt="mapped3b", vars=[("a", "float", 1)], prog=[
